@@ -67,7 +67,7 @@ ModelTerms ==
 KoyamaValid(sigma, l, lp) ==
     /\ RLess(sigma, RMul(<<2, 1>>, l))
     /\ RLeq(RDiv(RMul(<<4, 1>>, RPow(l, 3)), RSub(RMul(<<4, 1>>, RMul(l, l)), RMul(sigma, sigma))), lp)
-KoyamaCases == {<<s, l, lp>> \in {ROne} \X {<<2, 5>>, <<1, 2>>, <<3, 5>>, ROne, <<3, 2>>} \X {ROne, <<4, 3>>, <<27, 20>>, <<2, 1>>, <<5, 1>>} : TRUE}
+KoyamaCases == {<<s, l, lp>> \in {ROne, <<3, 5>>} \X {<<2, 5>>, <<1, 2>>, <<3, 5>>, ROne, <<3, 2>>} \X {ROne, <<4, 3>>, <<27, 20>>, <<2, 1>>, <<5, 1>>} : TRUE}
 
 \* ------------------------------------------------------------------ state: one model object
 Kinds == {"Gaussian", "FreelyJointedChain", "GaussianRing", "DiscreteKoyama", "NonOverlappingFreelyJointedChain", "SingleSite", "NoIntra"}
